@@ -1,6 +1,6 @@
 import Eliot.Model.File
 import Eliot.Proofs.JsonUtf8
-import Eliot.Proofs.JsonCodec
+import Eliot.Proofs.JsonDepth
 /-! Helper lemmas about `dumpsBytes` / `dumpsText` and the `FileDestination` call sequence (C10). -/
 namespace EJ
 
